@@ -910,7 +910,7 @@ def gen_pools(J, rng, quick):
             idx = list(range(len(ops)))
             if nmo == 4 and (quick or len(idx) > 120):
                 # 8 modes, 256 determinants: every group of the table is kept (first / last / seeded middle elements)
-                keep = set(idx[:3] + idx[-3:] + rng.sample(idx, min(len(idx), 14 if quick else 60)))
+                keep = set(idx[:3] + idx[-3:] + rng.sample(idx, min(len(idx), 8 if quick else 60)))
                 idx = sorted(keep)
             for i in idx:
                 try:
